@@ -21,6 +21,7 @@ from __future__ import annotations
 import ast
 
 from engine.common import AnalysisError
+from engine.absint import Evaluator, Obj, Raised
 from engine.layout import Tables, process_run, RULETYPES_MOD
 from engine.srcindex import Sym
 from .shared import models
@@ -429,11 +430,18 @@ def run(report, index, tier):
              'object (in the outer factory): its level counter survives a '
              'print call that was abandoned or raised, so the next output '
              'starts at a non-zero depth', where='rules.py:indent')
-    init = need_function(index.need('calmjs.parse.handlers.indentation'),
-                         '__init__', 'Indentator')
-    r5.check('self._level = 0' in ast.unparse(init),
-             'Indentator starts at level 0', 'Indentator.__init__',
-             'the level counter is not initialised to 0')
+    imod = index.need('calmjs.parse.handlers.indentation')
+    init = need_function(imod, '__init__', 'Indentator')
+    fresh = Obj('Indentator')
+    ev = Evaluator(imod, 'Indentator', imod.class_methods('Indentator'), {})
+    try:
+        ev.call(init, ['  '], self_obj=fresh)
+        lvl = fresh._level if fresh.has('_level') else 'unset'
+    except Raised as e:
+        lvl = 'raises %s' % e.text
+    r5.check(lvl == 0, 'Indentator starts at level 0',
+             'Indentator.__init__', 'a new Indentator starts with the '
+             'level %r' % (lvl,), where='handlers/indentation.py:Indentator')
     report.extra['exhaustive'] = True
     report.not_decided.append('multi-line tokens (exempt in the statement)')
     report.trusted_base += [
